@@ -62,9 +62,14 @@ pub fn const_eval_check_variant_indexes(
 	quote! {
 		#[automatically_derived]
 		const _: () = {
+			// The index expressions can be arbitrary user expressions (explicit discriminants). Evaluate
+			// them here, where none of the helper items below is in scope and could shadow a name they use.
 			#[allow(clippy::unnecessary_cast)]
 			#[allow(clippy::cast_possible_truncation)]
-			const indices: [(usize, &'static str); #len] = [#( #recurse_indices ,)*];
+			const __codec_variant_indices_edqy: [(usize, &'static str); #len] = [#( #recurse_indices ,)*];
+
+			const _: () = {
+			const indices: [(usize, &'static str); #len] = __codec_variant_indices_edqy;
 
 			const fn search_for_invalid_index(array: &[(usize, &'static str); #len]) -> (bool, usize) {
 				let mut i = 0;
@@ -124,6 +129,7 @@ pub fn const_eval_check_variant_indexes(
 
 				::core::panic!("{}", msg);
 			}
+			};
 		};
 	}
 }
